@@ -1,53 +1,64 @@
 -------------------------- MODULE Gen_SharedProgram --------------------------
 (* Behaviour export for SharedProgram: every complete interleaving of NProc  *)
-(* interpreters over one shared program (exhaustive under breadth-first      *)
-(* search, sampled under -simulate).  A case is the program body, the        *)
-(* schedule (the sequence of process numbers in the order in which they took *)
-(* their steps, the first step of a process being its New) and the result    *)
-(* the specification predicts for EVERY process: that of running alone.      *)
+(* processes over one shared program, each executing it MaxRuns times         *)
+(* (exhaustive under breadth-first search, sampled under -simulate).  A case  *)
+(* is the program body, the schedule (the sequence of process numbers in the  *)
+(* order in which they took their steps, the first step of an execution being *)
+(* its New), the execution interface of every process and the result the      *)
+(* specification predicts for EVERY execution: that of running alone.  Random *)
+(* numbers and the initial seed appear in it as tokens (>= 10000): equal      *)
+(* tokens are equal numbers in all executions of the case.                    *)
 EXTENDS SharedProgram, Json
 
 CONSTANTS MaxLen, Rich
 
+\* regular expression 3 (/1|10/) is used both as the compiled literal ("match") and, with the same source, on the
+\* run-time path ("rlen")
 Menu == { [op |-> "set", g |-> 1, k |-> 3], [op |-> "set", g |-> 2, k |-> 4],
-          [op |-> "add", g |-> 1, k |-> 2], [op |-> "add", g |-> 2, k |-> 3],
-          [op |-> "match", g |-> 1, k |-> 1], [op |-> "match", g |-> 2, k |-> 2],
-          [op |-> "call", g |-> 1, k |-> 0], [op |-> "print", g |-> 1, k |-> 0] }
-        \cup (IF Rich THEN { [op |-> "set", g |-> 1, k |-> 4], [op |-> "add", g |-> 2, k |-> 4],
-                             [op |-> "match", g |-> 1, k |-> 2], [op |-> "call", g |-> 2, k |-> 0],
-                             [op |-> "print", g |-> 2, k |-> 0] } ELSE {})
+          [op |-> "add", g |-> 1, k |-> 2],
+          [op |-> "match", g |-> 2, k |-> 3], [op |-> "rlen", g |-> 2, k |-> 3],
+          [op |-> "call", g |-> 1, k |-> 0],
+          [op |-> "rand", g |-> 1, k |-> 0], [op |-> "srand", g |-> 1, k |-> 3] }
+        \cup (IF Rich THEN { [op |-> "set", g |-> 1, k |-> 4], [op |-> "add", g |-> 2, k |-> 3], [op |-> "add", g |-> 2, k |-> 4],
+                             [op |-> "match", g |-> 1, k |-> 1], [op |-> "match", g |-> 1, k |-> 2], [op |-> "match", g |-> 1, k |-> 3],
+                             [op |-> "rlen", g |-> 1, k |-> 3], [op |-> "rlen", g |-> 1, k |-> 1],
+                             [op |-> "call", g |-> 2, k |-> 0], [op |-> "srand", g |-> 1, k |-> 2],
+                             [op |-> "print", g |-> 1, k |-> 0], [op |-> "print", g |-> 2, k |-> 0] } ELSE {})
 
-VARIABLES body, program, interp, sched, emitted
-vars == <<body, program, interp, sched, emitted>>
+VARIABLES body, program, interp, runs, sched, emitted
+vars == <<body, program, interp, runs, sched, emitted>>
 
 Init ==
-  /\ body = <<>> /\ program = <<>> /\ interp = [i \in 1..NProc |-> NoInterp] /\ sched = <<>> /\ emitted = FALSE
+  /\ body = <<>> /\ program = <<>> /\ interp = [i \in 1..NProc |-> NoInterp] /\ runs = [i \in 1..NProc |-> 0]
+  /\ sched = <<>> /\ emitted = FALSE
 
 \* choose the program instruction by instruction, then freeze it
 Grow ==
   /\ program = <<>> /\ Len(body) < MaxLen
   /\ \E m \in Menu : body' = Append(body, m)
-  /\ UNCHANGED <<program, interp, sched, emitted>>
+  /\ UNCHANGED <<program, interp, runs, sched, emitted>>
 Freeze ==
   /\ program = <<>>
   /\ program' = MkProgram(body)
-  /\ UNCHANGED <<body, interp, sched, emitted>>
+  /\ UNCHANGED <<body, interp, runs, sched, emitted>>
 New(i) ==
-  /\ program # <<>> /\ interp[i].status = "none"
-  /\ interp' = [interp EXCEPT ![i] = NewInterp] /\ sched' = Append(sched, i)
+  /\ program # <<>> /\ interp[i].status \in {"none", "done"} /\ runs[i] < MaxRuns
+  /\ interp' = [interp EXCEPT ![i] = StartInterp(NoInterp)] /\ runs' = [runs EXCEPT ![i] = @ + 1]
+  /\ sched' = Append(sched, i)
   /\ UNCHANGED <<body, program, emitted>>
 Step(i) ==
   /\ program # <<>> /\ interp[i].status = "run"
   /\ LET e == Exec1(program, interp[i], i)
      IN interp' = [interp EXCEPT ![i] = e.it] /\ program' = e.pr
   /\ sched' = Append(sched, i)
-  /\ UNCHANGED <<body, emitted>>
-AllDone == \A i \in 1..NProc : interp[i].status = "done"
+  /\ UNCHANGED <<body, runs, emitted>>
+AllDone == \A i \in 1..NProc : interp[i].status = "done" /\ runs[i] = MaxRuns
 Emit ==
   /\ program # <<>> /\ AllDone /\ ~emitted
-  /\ PrintT(ToJson([fam |-> "shared", body |-> body, nproc |-> NProc, sched |-> sched,
+  /\ PrintT(ToJson([fam |-> "shared", body |-> body, nproc |-> NProc, runs |-> MaxRuns, sched |-> sched,
+                    apis |-> [i \in 1..NProc |-> ApiOf(i)],
                     expect |-> [out |-> Solo(body).out, g |-> Solo(body).g]]))
-  /\ emitted' = TRUE /\ UNCHANGED <<body, program, interp, sched>>
+  /\ emitted' = TRUE /\ UNCHANGED <<body, program, interp, runs, sched>>
 Next == Grow \/ Freeze \/ (\E i \in 1..NProc : New(i) \/ Step(i)) \/ Emit
 Spec == Init /\ [][Next]_vars
 =============================================================================
